@@ -20,7 +20,8 @@ func init() {
 			"C10.c TABLE: every length-prefix encode/decode in package snapshot uses binary.BigEndian with a HeaderSizeLen-sized prefix (streamer, path streamer, sink header parsing, Restore agree). " +
 			"C10.d TABLE: NodeTransport.InstallSnapshot wraps the stream in the compressor exactly on the compressSnap edge and Consumer unwraps exactly on the same flag. " +
 			"C10.e ERR: in the snapshot sinks (Sink, FullSink and siblings) and Restore, no error result of a call that moves or persists snapshot bytes (Write, WriteTo, ReadFrom, Sync, Copy, Rename, WriteFile, writeMeta, sidecar, Open/Close of the inner sink) is dropped. " +
-			"C10.f CONST: every file the snapshot packages (snapshot, snapshot/plan, snapshot/sidecar, db/wal) create for writing starts empty — os.Create, or os.OpenFile whose constant flags with O_CREATE also carry O_TRUNC or O_EXCL — so that a retried install cannot keep the tail of an earlier, longer file behind the bytes whose CRC it recorded.",
+			"C10.f CONST: every file the snapshot packages (snapshot, snapshot/plan, snapshot/sidecar, db/wal) create for writing starts empty — os.Create, or os.OpenFile whose constant flags with O_CREATE also carry O_TRUNC or O_EXCL — so that a retried install cannot keep the tail of an earlier, longer file behind the bytes whose CRC it recorded. " +
+			"C10.g ERR: on the snapshot transfer path (internal/rarchive/zstd, snapshot, snapshot/plan, db/wal, internal/rsum) no call of an io.Reader's Read discards the byte count — a fixed-size prefix is read with io.ReadFull, a short read is never decoded as if it were complete.",
 		NotCovered: []string{"that CRC32 detects a particular mutation", "byte identity of the installed files (values)"},
 		Run:        runC10,
 	})
@@ -58,6 +59,7 @@ func eqEdges(fn *ssa.Function, x, y func(ssa.Value) bool) map[an.Edge]bool {
 func runC10(c *core.Ctx) {
 	c10Errors(c)
 	c10f(c)
+	c10g(c)
 	hdrCRC :=func(v ssa.Value) bool { return an.MentionsField(v, "Header", "Crc32") }
 	if fn := c.Fn("C10.a", "snapshot", "(*FullSink).Close"); fn != nil {
 		succ := map[ssa.Instruction]bool{}
@@ -93,7 +95,8 @@ func runC10(c *core.Ctx) {
 		var body *ssa.BasicBlock
 		var header *ssa.BasicBlock
 		for _, b := range fn.Blocks {
-			if b.Comment != "rangeindex.loop" {
+			// a range loop or an index loop `for i := 0; i < len(x); i++`
+			if !isLoopHeader(b) {
 				continue
 			}
 			// the second range loop (CRC comparison) is the one whose body contains a walEq edge
@@ -146,7 +149,7 @@ func runC10(c *core.Ctx) {
 		for e := range eq {
 			inLoopBlk := false
 			for _, b := range fn.Blocks {
-				if b.Comment == "rangeindex.loop" && (b.Succs[0] == e.From || b.Succs[0].Dominates(e.From)) {
+				if isLoopHeader(b) && (b.Succs[0] == e.From || b.Succs[0].Dominates(e.From)) {
 					inLoopBlk = true
 				}
 			}
@@ -160,7 +163,7 @@ func runC10(c *core.Ctx) {
 		c.Result(len(dbEdges) > 0 && len(h) == 0, "C10.b", "DOM", "Restore:db-crc", c.P.Pos(fn.Pos()), "Restore succeeds (and replays WALs) only after the database CRC matched", "Restore can succeed or replay WALs without the database CRC having matched", nil)
 		var header, body *ssa.BasicBlock
 		for _, b := range fn.Blocks {
-			if b.Comment == "rangeindex.loop" {
+			if isLoopHeader(b) {
 				for e := range walEdges {
 					if b.Succs[0] == e.From || b.Succs[0].Dominates(e.From) {
 						header, body = b, b.Succs[0]
@@ -204,7 +207,20 @@ func runC10(c *core.Ctx) {
 	}
 	sort.Strings(sites)
 	c.Count("length-prefix encode/decode sites in package snapshot", len(sites))
-	c.Min("length-prefix encode/decode sites in package snapshot", 4)
+	// at least one writer and one reader (two writers that share a helper are one site)
+	c.Min("length-prefix encode/decode sites in package snapshot", 2)
+	enc, dec := 0, 0
+	for _, s := range sites {
+		if strings.Contains(s, "Put") || strings.Contains(s, "Append") {
+			enc++
+		} else {
+			dec++
+		}
+	}
+	c.Count("length-prefix writers in package snapshot", enc)
+	c.Min("length-prefix writers in package snapshot", 1)
+	c.Count("length-prefix readers in package snapshot", dec)
+	c.Min("length-prefix readers in package snapshot", 1)
 	c.Result(bad == "", "C10.c", "TABLE", "snapshot:length-prefix-agreement", "", "all length prefixes are 32-bit big-endian: "+strings.Join(sites, ", "), "length-prefix encoders and decoders disagree: "+bad, nil)
 	if pk := c.P.Pkg("snapshot"); pk != nil {
 		if v, ok := constOf(c, "snapshot", "HeaderSizeLen"); ok {
@@ -248,6 +264,19 @@ func runC10(c *core.Ctx) {
 
 // loopRangesOverField reports whether the rangeindex loop with the given
 // header iterates over field typ.field (len of that field bounds the index).
+// isLoopHeader: the header of a range loop over a slice, or of an index loop
+// `for i := 0; i < n; i++` — a block that ends in the loop test.
+func isLoopHeader(b *ssa.BasicBlock) bool {
+	if b.Comment != "rangeindex.loop" && b.Comment != "for.loop" {
+		return false
+	}
+	if len(b.Instrs) == 0 {
+		return false
+	}
+	_, isIf := b.Instrs[len(b.Instrs)-1].(*ssa.If)
+	return isIf
+}
+
 func loopRangesOverField(header *ssa.BasicBlock, typ, field string) bool {
 	check := func(b *ssa.BasicBlock) bool {
 		for _, in := range b.Instrs {
